@@ -125,6 +125,50 @@ fn cmd_route(args: &[String]) -> i32 {
     }
 }
 
+/// Replay for the C-API init misuse harness: call the real extern "C" init functions with the
+/// solver's parameter values in a child process; a crash (panic=abort) instead of an error code
+/// is the violation.
+fn cmd_capi_init(args: &[String]) -> i32 {
+    let exe = std::env::current_exe().unwrap();
+    let out = std::process::Command::new(exe).arg("capi-init-child").args(args).output().unwrap();
+    let so = String::from_utf8_lossy(&out.stdout).to_string();
+    let se = String::from_utf8_lossy(&out.stderr).to_string();
+    print!("{}", so);
+    if !out.status.success() {
+        let last = se.lines().filter(|l| l.contains("panicked") || l.contains("overflow")).collect::<Vec<_>>().join(" | ");
+        println!("REPRODUCED C17 init call with (level, method, window_bits, mem_level, strategy) = {:?} crashed ({:?}) instead of returning an error code: {}", args, out.status, last);
+        return 1;
+    }
+    if so.contains("MISMATCH") {
+        println!("REPRODUCED C17 init call returned an unexpected code");
+        return 1;
+    }
+    println!("NOT-REPRODUCED");
+    0
+}
+
+fn cmd_capi_init_child(args: &[String]) -> i32 {
+    use miniz_oxide_c_api::*;
+    let v: Vec<i32> = args.iter().map(|a| a.parse::<i64>().unwrap() as i32).collect();
+    let (level, method, wbits, mem, strat) = (v[0], v[1], v[2], v[3], v[4]);
+    let ok = method == 8 && (1..=9).contains(&mem) && (wbits == 15 || wbits == -15);
+    unsafe {
+        let mut s = mz_stream::default();
+        let rc = mz_deflateInit2(&mut s, level, method, wbits, mem, strat);
+        println!("mz_deflateInit2 -> {}", rc);
+        if rc != if ok { 0 } else { -10000 } {
+            println!("MISMATCH deflateInit2");
+        }
+        let mut si = mz_stream::default();
+        let rci = mz_inflateInit2(&mut si, wbits);
+        println!("mz_inflateInit2 -> {}", rci);
+        if rci != if wbits == 15 || wbits == -15 { 0 } else { -10000 } {
+            println!("MISMATCH inflateInit2");
+        }
+    }
+    0
+}
+
 fn main() {
     let args: Vec<String> = std::env::args().skip(1).collect();
     if args.is_empty() {
@@ -133,6 +177,8 @@ fn main() {
     }
     let rc = match args[0].as_str() {
         "route" => cmd_route(&args[1..]),
+        "capi-init" => cmd_capi_init(&args[1..]),
+        "capi-init-child" => cmd_capi_init_child(&args[1..]),
         _ => {
             eprintln!("unknown command");
             2
